@@ -11,7 +11,7 @@ META = {
     "text": "DNS.tla is a discrete-time model of dnsResolver.watcher (lookup; on success wait for a ResolveNow token, then until "
             "lastLookup + MinResolutionInterval; on failure exponential backoff; Close cancels every wait) whose clauses (needs a "
             "request, minimum interval, backoff range, a lookup follows a request once the interval passed, none after Close) TLC "
-            "checks for all timelines up to 12 ticks (three negative controls). DNSTarget.tla is a byte-string reference of "
+            "checks for all timelines up to 10 (thorough: 14) ticks (three negative controls). DNSTarget.tla is a byte-string reference of "
             "parseTarget / formatIP (host, host:port, IPv4, [v6], [v6]:port, bare v6, default port, trailing colon rejected, "
             "bracketed output) whose algebraic laws TLC checks on every string over a 6-letter alphabet. TLC timelines (edge cover) "
             "and seeded random millisecond timelines are executed on the real resolver under testing/synctest virtual time with a "
@@ -54,7 +54,7 @@ def judge(ctx, res, tpath, what):
 
 def run(ctx):
     # ---- design level
-    ctx.mc("DNSMC", ctx.pick("DNSMC.cfg", "DNSMC.cfg"), workers=8)
+    ctx.mc("DNSMC", ctx.pick("DNSMC.cfg", "DNSMCBig.cfg"), workers=8)
     for k in ctx.pick((1, 2), (1, 2, 3)):
         ctx.neg("DNSMC", "DNSNeg%d.cfg" % k, expect="I_NoViol", workers=2)
     ctx.mc("DNSTargetMC", ctx.pick("DNSTargetMC.cfg", "DNSTargetMC5.cfg"), workers=8)
@@ -63,7 +63,7 @@ def run(ctx):
 
     # ---- pacing: TLC timelines
     g = ctx.dump_graph("DNSMC", "DNSGen.cfg")
-    behs = ctx.edge_cover(g, step_of, limit=ctx.pick(1500, None))
+    behs = ctx.edge_cover(g, step_of, limit=ctx.pick(1000, None))
     bpath = os.path.join(ctx.run, "beh.ndjson")
     tpath = os.path.join(ctx.run, "trace-replay.ndjson")
     write_ndjson(bpath, behs)
@@ -79,15 +79,15 @@ def run(ctx):
 
     # ---- pacing: random ms timelines
     tpath = os.path.join(ctx.run, "trace-random.ndjson")
-    n = ctx.pick(400, 20000)
+    n = ctx.pick(300, 5000)
     s = summary(ctx.driver(binary, "TestVerifC56Random", {"VERIF_OUT": tpath, "VERIF_N": n}, timeout=1200))
     ctx.count({"random_timelines": n, "seed": ctx.seed, "lookups": s["lookups"]}, n=n)
     judge(ctx, ctx.validate("DNSTrace", "DNSTrace.cfg", tpath), tpath, "random timelines seed %d" % ctx.seed)
 
     # ---- targets
     ppath = os.path.join(ctx.run, "pairs.ndjson")
-    s = summary(ctx.driver(binary, "TestVerifC56Targets", {"VERIF_OUT": ppath, "VERIF_N": ctx.pick(300, 20000),
-                                                            "VERIF_MAXLEN": ctx.pick(4, 5)}))
+    s = summary(ctx.driver(binary, "TestVerifC56Targets", {"VERIF_OUT": ppath, "VERIF_N": ctx.pick(200, 5000),
+                                                            "VERIF_MAXLEN": ctx.pick(3, 5)}))
     rows = read_ndjson(ppath)
     for r in rows:
         key = r.get("t", r.get("a"))
@@ -102,7 +102,7 @@ def run(ctx):
                       {"clause": res["clause"], "input": txt, "pair": bad})
     ctx.cov["rule"] = ("timelines = edge cover of the TLC state graph of DNS.tla (1 tick = 10 s of virtual time) plus seeded random "
                        "timelines of 5-30 operations at ms granularity; non-trivial = >= 3 environment steps; pairs = grammar-built "
-                       "targets (32 hosts x 6 ports x 11 forms), every string of length <= 4 (5) over {a 1 : [ ] .} and seeded "
+                       "targets (32 hosts x 6 ports x 11 forms), every string of length <= 3 (5) over {a 1 : [ ] .} and seeded "
                        "mutations; distinct by input")
     ctx.assumptions += ["virtual time of testing/synctest; instants rounded down to ms (2 ms slack on backoff bounds)",
                         "TLC's evaluation of the DNSTarget operators is trusted as the oracle for textual IP addresses"]
